@@ -1557,3 +1557,33 @@ def assigned_from(g, call_ast):
                     if b is call_ast and isinstance(a, _ast.Name):
                         out.append((path_of(a, s2.frame), s2))
     return out
+
+
+def reply_parser_func(e):
+    """The function of IO that matches reply_line_pattern against the
+    buffer: recv_reply itself, or the private helper the parsing loop was
+    moved into (one level, called on self).  FuncInfo."""
+    import ast as _ast
+    from ..model import walk_own
+    IOQ = 'slimta.smtp.io.IO'
+    top = e.p.lookup_method(IOQ, 'recv_reply')
+    if top is None:
+        return None
+
+    def matches(fn):
+        return any(isinstance(x, _ast.Call) and
+                   isinstance(x.func, _ast.Attribute) and
+                   x.func.attr in ('match', 'search', 'fullmatch') and
+                   isinstance(x.func.value, _ast.Name) and
+                   x.func.value.id == 'reply_line_pattern'
+                   for x in walk_own(fn.node))
+    if matches(top):
+        return top
+    for x in walk_own(top.node):
+        if isinstance(x, _ast.Call) and isinstance(x.func, _ast.Attribute) \
+                and isinstance(x.func.value, _ast.Name) and \
+                x.func.value.id == 'self':
+            m = e.p.lookup_method(IOQ, x.func.attr)
+            if m is not None and matches(m):
+                return m
+    return top
